@@ -98,15 +98,18 @@ func preloadEntryPoint(db *gorm.DB, joins []string, relationships *schema.Relati
 	}
 	sort.Strings(preloadNames)
 
+	// Joins names relations of the statement's model; in an embedded struct a relation of the same
+	// name may be another one
+	top := db.Statement.Schema.Relationships.Relations
 	isJoined := func(name string) (joined bool, nestedJoins []string) {
 		for _, join := range joins {
-			if _, ok := relationships.Relations[join]; ok && name == join {
+			if rel, ok := relationships.Relations[join]; ok && name == join && top[join] == rel {
 				joined = true
 				continue
 			}
 			joinNames := strings.SplitN(join, ".", 2)
 			if len(joinNames) == 2 {
-				if _, ok := relationships.Relations[joinNames[0]]; ok && name == joinNames[0] {
+				if rel, ok := relationships.Relations[joinNames[0]]; ok && name == joinNames[0] && top[joinNames[0]] == rel {
 					joined = true
 					nestedJoins = append(nestedJoins, joinNames[1])
 				}
